@@ -59,6 +59,13 @@ def skolemize(goal, assumptions):
     return list(assumptions) + extra, g2
 
 
+def fix_smt2(txt):
+    "z3 prints the pointwise array combinators without the signature its own parser wants"
+    if '(_ map ' in txt:
+        txt = txt.replace('(_ map ite )', '(_ map (ite (Bool Any Any) Any))').replace('(_ map or )', '(_ map (or (Bool Bool) Bool))')
+    return txt
+
+
 class Ob:
     def __init__(self, oid, kind, props, func, desc, assumptions, goal, must='valid', meta=None):
         if must == 'valid' and assumptions is not None and goal is not None:
@@ -93,7 +100,7 @@ class Ob:
                     pass
         if self.must == 'sat':
             s.add(self.goal)
-        return s.to_smt2()
+        return fix_smt2(s.to_smt2())
 
     def smt2_relaxed(self):
         "only the linear, quantifier-free assumptions (fewer premises: 'unsat' still proves the obligation)"
@@ -113,7 +120,7 @@ class Ob:
         if n == 0:
             return None
         s.add(z3.Not(self.goal))
-        return s.to_smt2()
+        return fix_smt2(s.to_smt2())
 
     def smt2(self, hints=False):
         s = z3.Solver()
@@ -140,7 +147,7 @@ class Ob:
                 pass
         for extra in self.meta.get('extra_assumptions', []):
             s.add(extra)
-        return s.to_smt2()
+        return fix_smt2(s.to_smt2())
 
     def freeze(self):
         "serialise everything the discharger needs (so the obligation can be cached / pickled)"
